@@ -1009,6 +1009,18 @@ static void execute_run(int out_fd)
       }
     }
 
+    if (fc_ok)
+    {  // the locator accessor of a 'create' shell is there for good, not only until FinalConstruct
+      try
+      {
+        dzn::locator* sl = g_model.shell.locator(g_shell);
+        rec(std::string("locator_after_fc result=ok present=") + (sl ? "1" : "0") + " entries=" + (sl ? contents_digest(*sl) : std::string("-")));
+      }
+      catch (const std::exception& e)
+      {
+        rec("locator_after_fc result=throw what=" + sanitize(e.what()));
+      }
+    }
     if (R.sibling == 2) sibling_setup();
 
     // ---- workload
